@@ -83,3 +83,11 @@ package policy
 //@   loop 0: invariant 0 <= i && i <= len(pattern)
 //@           invariant wfGlob(pattern, 0) == wfGlob(pattern, i)
 //@           decreases len(pattern) - i
+//@
+//@ // decoding a policy: only the integer-bounds clause is under contract here (C10); the shape of the
+//@ // returned statements is the subject of C14
+//@ func FromIPLD
+//@   trusted
+//@   requires node != nil
+//@   ensures result1 == nil ==> intsInBounds(node)
+//@   ensures result1 == nil ==> forall j int :: 0 <= j && j < len(result0) ==> result0[j] != nil
